@@ -149,7 +149,7 @@ def run(ck):
             except Exception:
                 d = float("inf")
             ck.resid("max |impl-model| (%s)" % l.split()[0], d if d != float("inf") else 1e300)
-            if d > t:
+            if d > t * max([1.0] + [abs(y) for y in fb] if d != float("inf") else [1.0]):
                 ck.disagree("stored states differ by %.3g (%s)" % (d, l.split()[0]), l[:200], a[:200], b[:200])
     return ck.finish()
 
